@@ -3,7 +3,8 @@ the texts TLC enumerates are preprocessed by the real code (harness mode cpp, wi
  - with the model's prediction (emitted text, literals, error, per-line emission / comment state / line span): a difference
    is model drift, reported in the evidence, not a verdict;
  - with the textbook scanner's result computed by TLC (Norm of the text, list of literals), on the well-formed texts outside
-   the deviation classes the model names: a difference there is a violation (C11 for the text, C09 for the literals)."""
+   the deviation classes the model names that the real preprocessor ACCEPTS: a difference there is a violation (C11 for the
+   text, C09 for the literals).  A refusal is never a violation (the properties speak of accepted programs)."""
 import json, os, random, re
 from . import common
 
@@ -18,12 +19,13 @@ def norm(s):
     return " ".join(s.split())
 
 
-def run(tier, name, maxlen, full_len, emit_mod, cap):
-    """-> (tlc result, cases replayed, drifts, text violations, literal violations)"""
+def run(tier, name, maxlen, full_len, emit_mod, cap, pieces=False):
+    """pieces: texts are built from at most maxlen pieces (MCCppScan!Pieces) instead of characters
+    -> (tlc result, cases replayed, drifts, text violations, literal violations)"""
     d = common.workdir("cs_" + name)
     cfg = os.path.join(d, "MCCppScan.cfg")
-    open(cfg, "w").write("SPECIFICATION Spec\nCONSTANTS MaxLen = %d\n EmitFullLen = %d\n EmitMod = %d\nINVARIANT TextReq\nINVARIANT LitReq\nINVARIANT CommentReq\n"
-                         "INVARIANT LinesReq\nINVARIANT EmitConf\nCHECK_DEADLOCK FALSE\n" % (maxlen, full_len, emit_mod))
+    open(cfg, "w").write("SPECIFICATION %s\nCONSTANTS MaxLen = %d\n EmitFullLen = %d\n EmitMod = %d\nINVARIANT TextReq\nINVARIANT LitReq\nINVARIANT CommentReq\n"
+                         "INVARIANT LinesReq\nINVARIANT %s\nCHECK_DEADLOCK FALSE\n" % ("PSpec" if pieces else "Spec", maxlen, full_len, emit_mod, "PEmitConf" if pieces else "EmitConf"))
     res = common.run_tlc("MCCppScan", cfg=cfg, name="cs_" + name, tags={"CONF"}, workers=8, heap="10g", timeout=3000)
     if res.violated_invariant:
         raise common.ToolError("design-level check failed: CppScan.tla violates %s (the model of the scanner is wrong, or the scanner as coded is): %s"
@@ -67,6 +69,23 @@ def run(tier, name, maxlen, full_len, emit_mod, cap):
                     tviol.append(dict(text=src, emitted=flat, textbook=render(c["refout"])))
                 if lits != [render(l) for l in c["reflits"]]:
                     lviol.append(dict(text=src, literals=lits, textbook=[render(l) for l in c["reflits"]]))
-        elif c["wf"] and not c["dev"]:
-            tviol.append(dict(text=src, emitted="refused: " + json.dumps(o.get("err"))[:150], textbook=render(c["refout"])))
+        # (a well-formed text that the real preprocessor refuses is drift, reported above: no listed property forbids refusing)
     return res, confs, drift, tviol, lviol
+
+
+def run_both(tier, name, light=False):
+    """the character generator and the piece generator; light: the thinner sample used where only the literals are judged
+    -> (distinct texts model-checked, texts replayed, drifts, text violations, literal violations)"""
+    if tier == "quick":
+        plan = [((6, 4, 59, 14000), False), ((4, 3, 23, 14000), True)] if light else [((6, 5, 29, 60000), False), ((4, 3, 11, 20000), True)]
+    else:
+        plan = [((7, 5, 29, 150000), False), ((5, 3, 29, 90000), True)] if light else [((7, 5, 7, 400000), False), ((5, 3, 7, 300000), True)]
+    distinct, confs, drift, tv, lv = 0, 0, [], [], []
+    for args, pieces in plan:
+        r = run(tier, name + ("p" if pieces else "c"), *args, pieces=pieces)
+        distinct += r[0].distinct
+        confs += len(r[1])
+        drift += r[2]
+        tv += r[3]
+        lv += r[4]
+    return distinct, confs, drift, tv, lv
